@@ -223,20 +223,19 @@ func (run *Run) hook(point string, ctx []interface{}) {
 	}
 	name, owner, attr := nameOf(point, ctx)
 	if point == "sched.loop" {
-		if s, ok := ctx[0].(*stub); ok && !s.begun {
-			s.begun = true
+		if s, ok := ctx[0].(jobRunner); ok && s.markBegun() {
 			s.ev("exec-begin", "", "")
 		}
 	}
 	run.core.park(point, name, owner, attr)
 	if point == "sched.loop" {
-		if s, ok := ctx[0].(*stub); ok {
+		if s, ok := ctx[0].(jobRunner); ok {
 			g := ctx[1].(*scheduler.ExecutionGraph)
 			snap := make(map[string]int32, len(g.Nodes()))
 			for n, st := range g.Nodes() {
 				snap[n] = st.ReadStatus()
 			}
-			s.passSnap = snap
+			*s.pass() = snap
 		}
 	}
 }
@@ -247,13 +246,13 @@ func (run *Run) skipHook(point string, ctx []interface{}) bool {
 		c, _ := ctx[1].(context.Context)
 		return c != nil && c.Err() != nil
 	case "sched.visit":
-		s, ok := ctx[0].(*stub)
-		if !ok || s.passSnap == nil {
+		s, ok := ctx[0].(jobRunner)
+		if !ok || *s.pass() == nil {
 			return false
 		}
 		g := ctx[1].(*scheduler.ExecutionGraph)
 		st := ctx[2].(*scheduler.Stage)
-		return passFate(g, st, s.passSnap) == fateStay
+		return passFate(g, st, *s.pass()) == fateStay
 	}
 	return false
 }
@@ -313,8 +312,8 @@ func (run *Run) worldOf(owner interface{}) *World {
 	switch o := owner.(type) {
 	case *prunner.PipelineRunner:
 		return run.runnerOwner[o]
-	case *stub:
-		return o.world
+	case jobRunner:
+		return o.theWorld()
 	case *World:
 		return o
 	case *store.JsonDataStore:
@@ -505,6 +504,10 @@ func (run *Run) Execute() (err error) {
 			_ = os.RemoveAll(run.baseDir)
 		}
 	}()
+	for k, v := range run.sc.ProcEnv {
+		os.Setenv(k, v)
+		defer os.Unsetenv(k)
+	}
 	run.mon = newMonState(run)
 	run.trackChanges = run.sc.Cfg.PersistCheck
 	for range run.sc.Clients {
@@ -536,6 +539,14 @@ func (run *Run) Execute() (err error) {
 	run.drain()
 	if !run.sc.Cfg.NoOracle {
 		run.mon.onEnd()
+		if run.cur != nil && !run.cur.isDead() && run.stats.Drained {
+			switch run.sc.Profile {
+			case "C18":
+				run.mon.checkEnvLogs()
+			case "C19":
+				run.mon.checkOutputLogs()
+			}
+		}
 	}
 	run.stats.Steps = run.step
 	run.stats.SimTime = time.Since(run.t0)
